@@ -207,15 +207,19 @@ def gen_world(i, R, rng, sw):
         cid = rng.choice(heavy)          # ~1000 nested function definitions: seconds per analysis
     d = rng.choice(["", "src", "lib/in/ner", "src/deep"])
     stem = "victim" if rng.random() < 0.85 else rng.choice(("vic tim", "victim\udce9", "vi\u0301ctim", "-victim", "files"))
-    if rng.random() < 0.06:
-        d, stem = rng.choice((("gen[", "v2]"), ("pages/[id]", "view"), ("a b", "c[d]e")))   # brackets, spaces
+    odd_path = rng.random() < 0.08
+    if odd_path:
+        # brackets, spaces: characters that mean something to whatever prints the path; keep the
+        # text long enough for check to have something to print about it
+        d, stem = rng.choice((("gen[", "v2]"), ("pages/[id]", "view"), ("a b", "c[d]e"), ("gen[", "v2]")))
+        cid = rng.choice(G.ids_for(lang, G.LONG_SHAPES))
     target = (d + "/" if d else "") + stem + EXT[lang]
     if target in neighbours:
         target = "victim2" + EXT[lang]
     ops.append({"op": "write", "path": target, "content": cid})
     n = len(CONTENTS[cid]["bytes"])
     is_heavy = is_heavy or n > 16384      # > 64 KiB texts: up to 12 s per process once re-encoded
-    kind = rng.choice(WORLD_FAULTS)
+    kind = rng.choice(WORLD_FAULTS) if not odd_path else rng.choice(("none", "crlf", "dup_line", "reencode"))
     if kind in ("torn_prefix", "lost_head", "zero_tail"):
         arg = rng.randrange(0, n + 1) if n else 0
     elif kind in LINE_KINDS:
